@@ -129,6 +129,32 @@ def player_rule(F, rep, spec):
            and "name: std::convert::TryFrom::try_from(name.as_slice())?" in txt and "code: std::convert::TryFrom::try_from(code.as_slice())?" in txt, PL, "names", "name tag / netplay name / code must be decoded from their whole per-port arrays")
 
 
+def strings_rule(F, rep):
+    """Slippi UID (29 bytes) and match id (51 bytes) are NUL-terminated: the value is the bytes before the first NUL, and the
+    reserved last byte never belongs to it (fallback bound = len - 1)"""
+    import safety
+    for fn, base, ln in ((PL, "v3_11", 29), (GS, "buf", 51)):
+        b = F.body(fn)
+        root = b["tir"]["value"]
+        found = False
+        for n in tir.walk(root):
+            if n.get("k") == "Index" and tir.place(n["base"]) == base and (n["base"].get("ty") or "").replace(" ", "") in ("[u8;%d]" % ln,):
+                why = safety.slice_to_position(F, root, n)
+                idx = strip(n["index"])
+                if why and ("unwrap_or(%d)" % (ln - 1)) in why:
+                    # the slice feeds from_utf8
+                    par = safety.parents(root)
+                    y = n
+                    utf8 = False
+                    for _ in range(4):
+                        y = par.get(id(y)) or {}
+                        if y.get("k") == "Call" and (declared(y) or "").endswith("str::from_utf8"):
+                            utf8 = True
+                    found = utf8
+        rep.ob("strings.terminated", found, fn, base, "%s: the %d-byte NUL-terminated field `%s` must be decoded as from_utf8(&%s[0..k]) with k = first NUL, or %d when there is none (the reserved terminator byte is never part of the value)" % (
+            fn, ln, base, base, ln - 1), sample={"fn": fn, "field": base, "max_len": ln - 1})
+
+
 def end_rule(F, rep, spec):
     try:
         segs = cursor.Prog(F, GE).run(1)
@@ -207,6 +233,7 @@ def run(F, rep, tier):
     start_struct_rule(F, rep)
     player_rule(F, rep, spec)
     end_rule(F, rep, spec)
+    strings_rule(F, rep)
     # raw block retained (C01 clause 3)
     from props import C01
     C01.raw_blocks_rule(F, rep)
